@@ -68,6 +68,26 @@ def conforming_metrics(system, choice, rng, n, oblique=True):
     return out
 
 
+def long_axis_metric(system, choice, rng):
+    """a conforming reciprocal metric with one very short reciprocal axis (long real axis), so that one index runs up to ~17
+    (~9 for cubic) inside a shell of a few hundred reflections; returns (metric, K)"""
+    big = rng.choice([30, 35, 40])
+    if system in ("triclinic", "monoclinic", "orthorhombic"):
+        m = [1, big, big + 7, 0, 0, 0]
+        if system == "monoclinic":
+            m[4] = rng.choice([-2, 2])
+        if system == "triclinic":
+            m[3], m[5] = rng.choice([-3, 3]), 0
+        return m, 330
+    if system == "tetragonal":
+        return [big, big, 1, 0, 0, 0], 330
+    if system in ("trigonal", "hexagonal") and choice != "rhombohedral":
+        return [2 * 20, 2 * 20, 1, 0, 0, 20], 300
+    if system == "trigonal":
+        return [6, 6, 6, 1, 1, 1], 330          # indices up to ~8
+    return [3, 3, 3, 0, 0, 0], 250                # cubic: indices up to 9
+
+
 def shell_for(m, target, rng):
     """K such that the ellipsoid Q*<=K holds about `target` lattice points; Kmin 0 or about K/4."""
     d = det6(m)
@@ -97,7 +117,7 @@ def bounds(K, Kmin, c):
     return smin, smax
 
 
-def make_instances(tabs, rng, per_setting, target, only=None):
+def make_instances(tabs, rng, per_setting, target, only=None, long_every=0):
     inst = []
     for i, t in enumerate(tabs):
         if only is not None and (t["no"], t["setting"]) not in only:
@@ -106,6 +126,10 @@ def make_instances(tabs, rng, per_setting, target, only=None):
         for m in ms:
             K, Kmin = shell_for(m, target, rng)
             inst.append({"t": i + 1, "met": m, "K": K, "Kmin": Kmin})
+        if long_every and (i % long_every == 0 or t["setting"] == "rhombohedral"):
+            m, K = long_axis_metric(t["crystal_system"], t["cell_choice"], rng)
+            if spd(m):
+                inst.append({"t": i + 1, "met": m, "K": K, "Kmin": rng.choice([0, K // 2]), "long": 1})
     return inst
 
 
